@@ -1,1 +1,78 @@
-From CMinx Require Import Base.Str.
+(* Properties/C14.v -- index.rst toctrees are closed and complete.
+   Only theorem statements; proofs are in Proofs/WalkFacts.v, WalkFacts2.v. *)
+From Coq Require Import String List Permutation.
+From CMinx Require Import Base.Str Model.Writer Model.Naming Model.Pipeline Model.Walk
+     Gen.SourceLiterals Proofs.WalkFacts Proofs.WalkFacts2 Proofs.LiteralsMatch.
+Import ListNotations.
+
+(* the index of a processed directory is one toctree over the sorted kept sub-directories
+   (recursive mode) and the stems of the sorted non-excluded CMake files; its title is the prefix
+   for the top directory and prefix + separator + relative path below *)
+Theorem C14_index_content :
+  forall st hdrs docfn excl base top rel text, no_index_page top = true ->
+    In (AWrite (rel ++ [index_rst]) text) (document st hdrs docfn excl base (KDir top)) ->
+    exists ch, visited st excl [] top rel ch /\ dir_processed st excl rel ch = true
+               /\ text = index_of st hdrs excl (run_prefix st base) rel ch.
+Proof. exact index_content. Qed.
+Print Assumptions C14_index_content.
+
+Theorem C14_index_is_one_toctree :
+  forall st hdrs excl prefix rel ch,
+    index_of st hdrs excl prefix rel ch
+    = doc_text hdrs (match rel with [] => prefix | _ :: _ => prefix ++ ws_sep st ++ rel_string rel end)
+               [Dir (s"toctree") [] [(s"maxdepth", s"2")] (map Para (toctree_entries st excl rel ch))].
+Proof. exact index_of_entries. Qed.
+Print Assumptions C14_index_is_one_toctree.
+
+(* each entry exactly once *)
+Theorem C14_entries_once :
+  forall st excl top rel ch, tree_ok top = true -> names_ok top = true ->
+    visited st excl [] top rel ch -> NoDup (toctree_entries st excl rel ch).
+Proof. exact toctree_nodup. Qed.
+Print Assumptions C14_entries_once.
+
+(* closed: a listed sub-directory is a processed one, its index is written *)
+Theorem C14_kept_subdir_is_processed :
+  forall st excl rel nm ch, keep_dir st excl rel (D nm ch) = true ->
+    dir_processed st excl (rel ++ [nm]) ch = true.
+Proof. exact keep_dir_processed. Qed.
+Print Assumptions C14_kept_subdir_is_processed.
+
+Theorem C14_closed_subdirs :
+  forall st hdrs docfn excl, all_ok docfn -> ws_out st = true -> excl [] true = false ->
+  forall base top rel ch sub, visited st excl [] top rel ch -> In sub (toctree_dirs st excl rel ch) ->
+    In (rel ++ [sub; index_rst]) (write_paths (document st hdrs docfn excl base (KDir top))).
+Proof. exact toctree_closed_dirs. Qed.
+Print Assumptions C14_closed_subdirs.
+
+Theorem C14_closed_files :
+  forall st hdrs docfn excl, all_ok docfn -> ws_out st = true -> excl [] true = false ->
+  forall base top rel ch f, visited st excl [] top rel ch -> dir_processed st excl rel ch = true ->
+    In f (toctree_files excl rel ch) ->
+    In (rel ++ [rst_name f]) (write_paths (document st hdrs docfn excl base (KDir top))).
+Proof. exact toctree_closed_files. Qed.
+Print Assumptions C14_closed_files.
+
+(* complete: every written file is reachable from the top index through toctree entries *)
+Theorem C14_all_written_reachable :
+  forall st hdrs docfn excl, all_ok docfn -> ws_out st = true -> excl [] true = false ->
+  forall base top, dir_processed st excl [] top = true ->
+  forall p, In p (write_paths (document st hdrs docfn excl base (KDir top))) ->
+    reachable st hdrs excl (run_prefix st base) (document st hdrs docfn excl base (KDir top)) p.
+Proof. exact all_written_reachable. Qed.
+Print Assumptions C14_all_written_reachable.
+
+(* known finding F23: without the hypothesis that the input directory itself is processed
+   the statement is false (sub pages written, no top index) *)
+Theorem C14_top_without_cmake_refuted :
+  ltac:(let t := type of all_written_reachable_refuted in exact t).
+Proof. exact all_written_reachable_refuted. Qed.
+Print Assumptions C14_top_without_cmake_refuted.
+
+Theorem C14_source_literals_pinned :
+  get (s"document") init_strings
+  = [[]; []; cmake_ext; cmake_ext; s"toctree"; s"maxdepth"; s"/index.rst"; cmake_ext; [dot]; [dot];
+     s"index.rst"; cmake_ext]
+  /\ geti (s"document") init_ints = [1; 2; 1].
+Proof. exact document_literals. Qed.
+Print Assumptions C14_source_literals_pinned.
